@@ -5,6 +5,7 @@
 cd /verif
 WHAT="${*:-unfix mutants seeded}"
 LOG=/tmp/regress_all.log
+export NOCLEAN=1
 for w in $WHAT; do
   case $w in
     unfix)
@@ -22,10 +23,24 @@ for w in $WHAT; do
         tools/mkregress.sh $f $prop $n 2>&1 | tail -1 | tee -a $LOG
       done ;;
     seeded)
-      for d in seeded/*/; do
+      for d in seeded/[CHXY][0-9][0-9]-[ab]/; do
         id=$(basename $d); prop=C${id:1:2}
+        [ -n "${SEEDED_ONLY:-}" ] && [[ ! "$id" =~ ^[$SEEDED_ONLY] ]] && continue
         [ -f regress/$prop-seeded-$id.json ] && continue
         tools/mkregress.sh $d/patch.diff $prop seeded-$id 2>&1 | tail -1 | tee -a $LOG
       done ;;
   esac
+done
+
+# one pass on the unchanged tree: every saved case must pass there; files that do not are removed
+git -C /repo status --porcelain | grep -q . && { echo "/repo dirty at the end?"; exit 3; }
+for prop in C01 C02 C03 C04 C05 C06 C07 C08 C09 C10 C11 C12 C13 C14 C15 C16 C17 C18 C19 C20; do
+  ls regress/$prop-*.json >/dev/null 2>&1 || continue
+  cp evidence/$prop.json /tmp/evidence.$prop.keep
+  JSV_ONLY=R_regression_replays ./run.sh $prop quick > /tmp/regress_verify.out 2> /tmp/regress_verify.err
+  mv /tmp/evidence.$prop.keep evidence/$prop.json
+  for f in $(grep '^VIOLATION' /tmp/regress_verify.out | sed 's/.*replay=//'); do
+    bad=$(python3 -c "import json,sys; print(json.load(open('$f'))['case'].get('file',''))")
+    [ -n "$bad" ] && { echo "removing regress/$bad: does not pass on the unchanged tree" | tee -a $LOG; rm -f regress/$bad; }
+  done
 done
